@@ -163,6 +163,11 @@ func c10File(dir string, cs c10Case, only *c10Case, count func(string)) []lib.Vi
 	var vs []lib.Violation
 	path := filepath.Join(dir, "c10.yml")
 	content := ""
+	if strings.HasPrefix(cs.Special, "missing:") {
+		// a missing file under another name: classification must not depend on what the path looks like
+		path = filepath.Join(dir, strings.TrimPrefix(cs.Special, "missing:"))
+		cs.Special = "missing"
+	}
 	switch cs.Special {
 	case "missing":
 		os.Remove(path)
@@ -289,7 +294,7 @@ func c10Run(c *lib.Ctx) {
 	seqs := uSequences(n, depth)
 	count := func(k string) { c.Count(k, 1) }
 	if c.Shard == 0 {
-		for _, sp := range []string{"missing", "directory"} {
+		for _, sp := range []string{"missing", "directory", "missing:commands.yaml", "missing:unmarshal-notes.yml", "missing:permission denied.yml", "missing:my yaml: files.yml", "missing:a/b/c.yaml"} {
 			for _, v := range c10File(c.Scratch, c10Case{Special: sp}, nil, count) {
 				c.Violate(v)
 			}
@@ -322,7 +327,7 @@ func c10Run(c *lib.Ctx) {
 func init() {
 	lib.Register(&lib.Check{
 		ID: "C10", Level: "model_checking",
-		Rule:      "every concatenation of <=2 (quick) / <=3 (thorough) atoms of a 76-atom YAML/binary grammar (entries with right and wrong field types, NUL / control / invalid UTF-8 / BOM bytes, anchors, aliases, merge keys, a 9-level alias bomb, tags, truncated quotes, block scalars, duplicate keys, a 66 KB scalar, 1000-deep nesting, documents, non-entries) as database file + a missing path + a directory path; load classified against yaml.v3's own decode of the same bytes (loads iff it decodes as a list of entries; parse error otherwise; not-found for a missing file); every loaded database searched with 28 hostile queries x 8 option corners (zero value, negative and huge limits, thresholds, non-finite-free boosts incl. 0 / negative / 1e300, odd platforms) through SearchUniversal, Search, SearchWithPipelineOptions, SearchWithOptions, SearchWithFuzzy, SearchWithNLP, the cached wrapper, GetSuggestions and the recovery searches; panic, step-budget (20 s watchdog) and allocation oracles. evaluations = loads + search calls; non-trivial = files that loaded and were searched",
+		Rule:      "every concatenation of <=2 (quick) / <=3 (thorough) atoms of a 76-atom YAML/binary grammar (entries with right and wrong field types, NUL / control / invalid UTF-8 / BOM bytes, anchors, aliases, merge keys, a 9-level alias bomb, tags, truncated quotes, block scalars, duplicate keys, a 66 KB scalar, 1000-deep nesting, documents, non-entries) as database file + missing paths under 6 names (.yml, .yaml, names containing 'yaml:', 'unmarshal', 'permission denied', a missing directory) + a directory path; load classified against yaml.v3's own decode of the same bytes (loads iff it decodes as a list of entries; parse error otherwise; not-found for a missing file); every loaded database searched with 28 hostile queries x 8 option corners (zero value, negative and huge limits, thresholds, non-finite-free boosts incl. 0 / negative / 1e300, odd platforms) through SearchUniversal, Search, SearchWithPipelineOptions, SearchWithOptions, SearchWithFuzzy, SearchWithNLP, the cached wrapper, GetSuggestions and the recovery searches; panic, step-budget (20 s watchdog) and allocation oracles. evaluations = loads + search calls; non-trivial = files that loaded and were searched",
 		Assume:    []string{"yaml.v3's decoder defines 'decodes as a list of command entries'", "step budget 20 s per call stands for 'bounded time' (slowest observed call is milliseconds)"},
 		QuickSecs: 200, ThorSecs: 2400,
 		Run: c10Run,
